@@ -344,6 +344,60 @@ Theorem agreed_reads_are_coherent : forall w : wcase,
 Proof. exact agreed_coherent_lemma. Qed.
 Print Assumptions agreed_reads_are_coherent.
 
+(* ... and the other clauses.  [holds_from Q c1 c2 insts r0 ops obs]: the judgement Q of one
+   operation holds at every operation of the observed history, the judgement's own state (reference
+   database, view of the outages, previous store contents, owed keys) being threaded by [Check.next]
+   exactly as [prop_ok] threads it.  On every observed history on which the implementation agrees
+   with the model (and whose dumps list a key once):
+     (A) coherence (with F7's exemption)        from the coherence invariant (step_coh)
+     (B) served from the cache                  from served_from_cache
+     (C) database errors, at most one query     from db_error_not_cached, one_query_per_operation
+     (D) fail fast on a store error             from cache_error_fails_fast
+     (F) invalidation                           from invalidation_never_skipped (keys on a reachable node are gone;
+                                                for an Exec whose context died: the keys of the first DEL)
+   PARTIAL: clauses (E) TTL band, (G) containment of deletions and (H) the cleaner's first retry are
+   not tied to the model by a theorem ([check_op_decomposes]: the judgement of one operation is the
+   conjunction of the covered clauses and these three). *)
+Theorem agreed_history_satisfies_clause_A : forall w : wcase,
+  NoDup (map fst (c_rows w)) -> dumps_unique (c_obs w) -> agrees1 w = true ->
+  judged_from (fun c r o ob => coherent true r (norm o) ob) w = true.
+Proof. exact C06.ProofsCheck.agreed_history_satisfies_clause_A. Qed.
+Print Assumptions agreed_history_satisfies_clause_A.
+
+Theorem agreed_history_satisfies_clause_B : forall w : wcase,
+  NoDup (map fst (c_rows w)) -> dumps_unique (c_obs w) -> agrees1 w = true ->
+  judged_from (fun c r o ob => served c r (norm o) ob) w = true.
+Proof. exact C06.ProofsCheck.agreed_history_satisfies_clause_B. Qed.
+Print Assumptions agreed_history_satisfies_clause_B.
+
+Theorem agreed_history_satisfies_clause_C : forall w : wcase,
+  NoDup (map fst (c_rows w)) -> dumps_unique (c_obs w) -> agrees1 w = true ->
+  judged_from (fun c r o ob => db_errors r (norm o) ob) w = true.
+Proof. exact C06.ProofsCheck.agreed_history_satisfies_clause_C. Qed.
+Print Assumptions agreed_history_satisfies_clause_C.
+
+Theorem agreed_history_satisfies_clause_D : forall w : wcase,
+  NoDup (map fst (c_rows w)) -> dumps_unique (c_obs w) -> agrees1 w = true ->
+  judged_from (fun c r o ob => fail_fast_mid c r o ob) w = true.
+Proof. exact C06.ProofsCheck.agreed_history_satisfies_clause_D. Qed.
+Print Assumptions agreed_history_satisfies_clause_D.
+
+Theorem agreed_history_satisfies_clause_F : forall w : wcase,
+  NoDup (map fst (c_rows w)) -> dumps_unique (c_obs w) -> agrees1 w = true ->
+  judged_from (fun c r o ob => invalidated c r o ob) w = true.
+Proof. exact C06.ProofsCheck.agreed_history_satisfies_clause_F. Qed.
+Print Assumptions agreed_history_satisfies_clause_F.
+
+(* all five at once, and what is left of the judgement of one operation *)
+Theorem agrees_implies_prop_ok_up_to_known_partial : forall w : wcase,
+  NoDup (map fst (c_rows w)) -> dumps_unique (c_obs w) -> agrees1 w = true ->
+  judged_from covered_op w = true /\
+  (forall c f11 r o ob,
+     check_op c true f11 r o ob
+     = covered_op c r o ob && (ttls c f11 r o ob && kept r o ob && retried c r o ob)).
+Proof. exact (fun w ND DU AG => conj (agrees_implies_covered w ND DU AG) check_op_decomposes). Qed.
+Print Assumptions agrees_implies_prop_ok_up_to_known_partial.
+
 (* ------------------------------------------------------------------ non-vacuity *)
 Definition ex_cfg : config := mkCfg (100 * sec) (10 * sec) [(KP 1, 1)] false.
 Definition ex_rows : table := [(1, (7, 41)); (2, (8, 5))].
@@ -460,3 +514,5 @@ Proof.
   split; [repeat constructor; cbn; intuition discriminate|].
   repeat constructor; cbn; intuition discriminate.
 Qed.
+Example ex_observed_judged : judged_from covered_op ex_observed = true.
+Proof. vm_compute. reflexivity. Qed.
